@@ -272,6 +272,41 @@ def gen_programs(seed, n):
         out.extend(items)
 
     core.run_hypothesis(test, seed, n)
+    return directed_programs() + out
+
+
+def directed_programs():
+    """Explicitly enabled contracts on a base class, overridden below WITHOUT any contract of their own (so that the
+    override has no checker before the metaclass merges the inherited contracts), for every member kind."""
+    from vf.progmodel import gen as G
+
+    out = []
+    for kind, is_async in (("method", False), ("method", True), ("static", False), ("class", False), ("getter", False),
+                           ("setter", False)):
+        name = "p" if kind in ("getter", "setter") else "m"
+        params, defaults = G.params_of(kind)
+
+        def member(decos):
+            f = {"name": name, "kind": kind, "async": is_async, "params": params, "defaults": defaults, "decos": decos,
+                 "body": {"ret": "obj"}}
+            if kind == "setter":
+                return [{"name": name, "kind": "getter", "async": False, "params": [], "defaults": {}, "decos": [],
+                         "body": {"ret": "obj"}}, f]
+            return [f]
+
+        base = member([{"t": "require", "cid": 1, "args": [], "lam": False, "err": {"form": "default"}, "enabled": True},
+                       {"t": "ensure", "cid": 2, "args": [], "lam": False, "err": {"form": "default"}, "enabled": True}])
+        prog = {"funcs": [], "classes": [
+            {"name": "K0", "bases": [], "root": "DBC", "shape": "plain", "invs": [], "members": base},
+            {"name": "K1", "bases": [0], "root": "DBC", "shape": "plain", "invs": [], "members": member([])},
+            {"name": "K2", "bases": [1], "root": "DBC", "shape": "plain", "invs": [], "members": member([])}]}
+        ops = []
+        args = {"value": "a:v"} if kind == "setter" else ({} if kind == "getter" else {"x": "a:x"})
+        for ci in range(3):
+            ops.append({"op": "new", "cls": ci, "k": ci, "args": {}})
+            ops.append(G.op_for_member(kind, ci, name, args))
+        for truth in ({1: ["T"], 2: ["T"]}, {1: ["F"], 2: ["T"]}, {1: ["T"], 2: ["F"]}):
+            out.append((prog, ops, truth))
     return out
 
 
